@@ -202,13 +202,56 @@ class C07(RoundTrip):
             self._unified = d.unified()
         except ProvException:
             return False, "unification-conflict"
+        # Records that unification merges may hold, for one attribute, numbers that a Python
+        # set conflates (1, True, 1.0): RDF keeps them apart as two literals, and which of
+        # them the merged record ends up holding is an accident of order on both sides.
+        # Such documents are compared with numbers by value instead of by kind.
+        self._by_value = numeric_conflation(d)
+        if self._by_value:
+            self.probe("numbers_compared_by_value")
         return True, None
 
     def facts(self, d, d2):
         return {"conflated_association_or_delegation": [list(x) for x in conflated_pairs(d)]}
 
     def expected(self, d):
-        return observe.doc_sets(self._unified)
+        s = observe.doc_sets(self._unified)
+        return numbers_by_value(s) if self._by_value else s
 
     def got(self, d2):
-        return observe.doc_sets(d2)
+        s = observe.doc_sets(d2)
+        return numbers_by_value(s) if self._by_value else s
+
+
+def numeric_conflation(d):
+    """Do two records that share an identifier in one container hold, for the same attribute,
+    numbers that are equal as Python numbers but of different kinds?"""
+    num = (bool, int, float)
+    for c in [d] + list(d.bundles):
+        seen = {}
+        for r in c.get_records():
+            if r.identifier is None:
+                continue
+            for a, v in r.attributes:
+                if isinstance(v, num):
+                    for w in seen.setdefault((r.identifier.uri, a.uri), []):
+                        if w == v and type(w) is not type(v):
+                            return True
+                    seen[(r.identifier.uri, a.uri)].append(v)
+    return False
+
+
+def numbers_by_value(snap):
+    def val(k):
+        if isinstance(k, tuple) and k and k[0] in ("int", "bool", "float"):
+            v = float(k[1]) if k[0] == "float" else int(k[1])
+            if isinstance(v, float) and v == v and v not in (float("inf"), float("-inf")) and v.is_integer():
+                v = int(v)
+            return ("num", repr(v))
+        return k
+
+    def rec(r):
+        return (r[0], r[1], tuple(sorted(((a, val(k)) for a, k in r[2]), key=repr)))
+
+    recs, bundles = snap
+    return (frozenset(rec(r) for r in recs), tuple((u, frozenset(rec(r) for r in rs)) for u, rs in bundles))
